@@ -116,7 +116,7 @@ int main(int argc, const char **argv) {
     TNEG(setuid(drop_stat.st_uid), trace);
   }
 
-  if (!ok(trace) || !getuid() || !getgid()) {
+  if (!ok(trace) || !getuid() || !getgid() || getgroups(0, NULL)) {
     throw_context(get_privilege_dropping_path(params), trace);
     throw_static(messages.main.cannot_drop_privileges, trace);
     return fail(trace);
